@@ -14,6 +14,8 @@ func init() {
 		c11ReleaseAtClose(c, "C12.3")
 		c12TeardownOrdering(c)
 		c12CallbackBeforeTeardown(c)
+		// bounded completion: a closing session still drains its buffer and still times out
+		c03AdmittedStates(c, "C12.6", map[string]bool{"flush/Send": true, "resetPingTimeout$callback/OnClose(ping timeout)": true, "Close/closeTransport(discard)": true})
 	})
 }
 
